@@ -446,8 +446,8 @@ class Transaction:
             if rdataset.rdclass != self.manager.get_class():
                 raise ValueError(f"{method} has objects of wrong RdataClass")
             if rdataset.rdtype == dns.rdatatype.SOA:
-                _, _, origin = self._origin_information()
-                if name != origin:
+                absolute, _, origin = self._origin_information()
+                if name not in (origin, absolute, dns.name.empty):
                     raise ValueError(f"{method} has non-origin SOA")
             self._raise_if_not_empty(method, args)
             if not replace:
